@@ -12,22 +12,21 @@ to exclude it.  This file proves, over ALL reachable states (`runHistory evs`, a
   `TxNoCtl` (no EXEC / DISCARD / MULTI / WATCH queued) and `TxKnown` (every queued name is in the command table);
   the three form `TxWf`, which holds initially and is preserved by EVERY event (`txWf_step`, `txWf_reachable`).
 * (b) from a `TxWf` state **`_process_command` leaves `crashed` alone for every request** — any name, any arguments,
-  any mode, EXEC, scripts, blocking pops on both front-ends — with ONE exception that lies outside the model: an EXEC
-  whose queue holds a script command (EVAL / EVALSHA / SCRIPT are not modelled inside MULTI: the model answers
-  `NoResponse`, sets its `fault` marker "command not modelled", and the assertion path follows).  So: no crash when the
-  queue holds no script command (`processCommand_never_crashes`), no crash on any run the model follows
-  (`processCommand_faultfree_never_crashes`), the exception is real in the model (`unconditional_no_crash_false`), and
-  over histories: no connection is ever dead and `crashed` is `none` after every event, for histories without a write
-  during an outage that the model follows (`reachable_alive`).  A write during an outage sets
-  `crashed := some "ConnectionError"` by design — the client library's own error type (`outage_send`).
+  any mode, EXEC, scripts, blocking pops on both front-ends, and an EXEC whose queue holds script commands (EXEC runs a
+  queued EVAL / EVALSHA / SCRIPT with the direct script runner; the former exception `ExecOfScript` and its witness
+  `unconditional_no_crash_false` are gone): `processCommand_crashed_unchanged`, `processCommand_never_crashes`,
+  `unconditional_no_crash`; and over histories: no connection is ever dead and `crashed` is `none` after every event,
+  for histories without a write during an outage (`reachable_alive`) - whether or not the model's `fault` marker is
+  set.  A write during an outage sets `crashed := some "ConnectionError"` by design — the client library's own error
+  type (`outage_send`).
 * (c) the reply count of one request (`reply_count_*`).
 * (d) the positive replacement of the KF-1 witness (`subscribe_in_multi_refused`, `exec_after_refusal_aborts`) and the
   chunking theorems of `FR/Props/C04s.lean` with the aliveness hypothesis discharged from reachability.
 
 Vocabulary (defined in `FR/Proofs/C04k.lean`, `C04kExec.lean`, `C04kHist.lean`): `TxClean`, `TxNoCtl`, `TxKnown`, `TxWf`,
-`AllAlive s` (no connection record has `dead = true`), `ExecOfScript s c fields` (the request is an EXEC and the queue
-of `c` holds a script command), `GoodFrom s evs` (no `.send` while disconnected, no event ends with `fault` set),
-`IsMsg r` (`r` is a `message` / `pmessage` push).  `fault` is the MODEL's "I could not follow" flag, not a crash.
+`AllAlive s` (no connection record has `dead = true`), `UpFrom s evs` (no `.send` while disconnected), `GoodFrom s evs`
+(`UpFrom`, and no event ends with `fault` set), `IsMsg r` (`r` is a `message` / `pmessage` push).  `fault` is the
+MODEL's "I could not follow" flag (e.g. a script whose recorded trace cannot be followed), not a crash.
 -/
 namespace FR.Props.C04k
 open FR FR.M FR.C04k FR.ErrSys FR.BufIndep
@@ -76,40 +75,29 @@ example : TxClean (runHistory demoA) := txClean_reachable demoA
 /-! ## (b) no crash -/
 
 /-- **Exact characterisation.**  One request through `_process_command` from a state with well-formed queues: `crashed`
-is left as it was, unless the request is an EXEC whose queue holds a script command — then EXEC takes the assertion
-path and the model has flagged the run (`fault`). -/
-theorem processCommand_crash_only_exec_of_script (mode : Mode) (c : Nat) (fields : List Bytes) (s : Sys) (h : TxWf s) :
-    (processCommand mode c fields s).2.crashed = s.crashed ∨
-    ((processCommand mode c fields s).2.crashed = some "AssertionError" ∧
-      (processCommand mode c fields s).2.fault.isSome = true ∧ ExecOfScript s c fields) :=
+is left as it was — for every request, an EXEC whose queue holds script commands included. -/
+theorem processCommand_crashed_unchanged (mode : Mode) (c : Nat) (fields : List Bytes) (s : Sys) (h : TxWf s) :
+    (processCommand mode c fields s).2.crashed = s.crashed :=
   (processCommand_spec mode c fields s h).crashed
 
-/-- **No crash, outright**: any request — any name, arguments, mode; EXEC, scripts, blocking pops included — on any
-connection of a state with well-formed queues and `crashed = none`, provided it is not an EXEC of a queue holding a
-script command.  No connection dies either. -/
+/-- **No crash, outright**: any request — any name, arguments, mode; EXEC (of any well-formed queue, script commands
+included), scripts, blocking pops — on any connection of a state with well-formed queues and `crashed = none`.
+No connection dies either. -/
 theorem processCommand_never_crashes (mode : Mode) (c : Nat) (fields : List Bytes) (s : Sys) (h : TxWf s)
-    (hcr : s.crashed = none) (hns : ¬ ExecOfScript s c fields) :
+    (hcr : s.crashed = none) :
     (processCommand mode c fields s).2.crashed = none ∧
     (AllAlive s → AllAlive (processCommand mode c fields s).2) := by
   have hf := processCommand_spec mode c fields s h
-  have : (processCommand mode c fields s).2.crashed = none := by
-    rcases hf.crashed with e | ⟨_, _, hx⟩
-    · exact e.trans hcr
-    · exact absurd hx hns
+  have : (processCommand mode c fields s).2.crashed = none := hf.crashed.trans hcr
   exact ⟨this, fun ha => hf.alive ha this⟩
 
-/-- **No crash on any run the model follows**: if the request ends with the `fault` marker unset, `crashed` is still
-`none` (unconditionally in the request). -/
+/-- the special case of a run the model follows (kept from the time when `processCommand_never_crashes` had an
+exclusion; the hypothesis `hff` is not needed any more) -/
 theorem processCommand_faultfree_never_crashes (mode : Mode) (c : Nat) (fields : List Bytes) (s : Sys) (h : TxWf s)
-    (hcr : s.crashed = none) (hff : (processCommand mode c fields s).2.fault = none) :
+    (hcr : s.crashed = none) (_hff : (processCommand mode c fields s).2.fault = none) :
     (processCommand mode c fields s).2.crashed = none ∧
-    (AllAlive s → AllAlive (processCommand mode c fields s).2) := by
-  have hf := processCommand_spec mode c fields s h
-  have : (processCommand mode c fields s).2.crashed = none := by
-    rcases hf.crashed with e | ⟨_, hfl, _⟩
-    · exact e.trans hcr
-    · rw [hff] at hfl; cases hfl
-  exact ⟨this, fun ha => hf.alive ha this⟩
+    (AllAlive s → AllAlive (processCommand mode c fields s).2) :=
+  processCommand_never_crashes mode c fields s h hcr
 
 /-- the `fault` marker is never cleared by a request, and the queues stay well-formed -/
 theorem processCommand_keeps (mode : Mode) (c : Nat) (fields : List Bytes) (s : Sys) (h : TxWf s) :
@@ -117,13 +105,11 @@ theorem processCommand_keeps (mode : Mode) (c : Nat) (fields : List Bytes) (s : 
     (s.fault.isSome = true → (processCommand mode c fields s).2.fault.isSome = true) :=
   ⟨(processCommand_spec mode c fields s h).wf, (processCommand_spec mode c fields s h).fault⟩
 
-/-- EXEC in particular: from a reachable state, if the queue of `c` holds no script command, EXEC does not take the
-`AssertionError` path -/
-theorem exec_never_asserts (evs : List Ev) (mode : Mode) (c : Nat) (fields : List Bytes) (cl : List Int) (pk)
-    (hns : ¬ ExecOfScript ((runHistory evs).beginEvent.withHints cl pk) c fields) :
+/-- EXEC in particular: from a reachable state EXEC does not take the `AssertionError` path, whatever was queued -/
+theorem exec_never_asserts (evs : List Ev) (mode : Mode) (c : Nat) (fields : List Bytes) (cl : List Int) (pk) :
     (stepEv (runHistory evs) (.request mode c fields cl pk)).crashed = none :=
   (processCommand_never_crashes mode c fields ((runHistory evs).beginEvent.withHints cl pk)
-    (txWf_reachable evs) rfl hns).1
+    (txWf_reachable evs) rfl).1
 
 /-- non-vacuity of the three theorems above: `MULTI; SET k v` then EXEC from a reachable state -/
 def demoB : List Ev :=
@@ -132,16 +118,8 @@ def demoB : List Ev :=
 theorem demoB_queue : (((runHistory demoB).beginEvent.withHints [3] []).conn 1).tx = some [("set", [[107], [118]])] := by
   decide +kernel
 
-theorem demoB_not_script : ¬ ExecOfScript ((runHistory demoB).beginEvent.withHints [3] []) 1 [strBytes "EXEC"] := by
-  rintro ⟨_, _, _, q, _, _, _, hq, a, ha, hs⟩
-  rw [demoB_queue] at hq
-  cases hq
-  simp only [List.mem_singleton] at ha
-  subst ha
-  revert hs; decide
-
 example : (stepEv (runHistory demoB) (.request {} 1 [strBytes "EXEC"] [3] [])).crashed = none :=
-  exec_never_asserts demoB {} 1 _ [3] [] demoB_not_script
+  exec_never_asserts demoB {} 1 _ [3] []
 
 example : (stepEv (runHistory demoB) (.request {} 1 [strBytes "EXEC"] [3] [])).fault = none ∧
     (stepEv (runHistory demoB) (.request {} 1 [strBytes "EXEC"] [3] [])).out.map (fun p => (p.1, p.2.render)) =
@@ -156,61 +134,63 @@ example : (processCommand {} 1 [strBytes "EXEC"] ((runHistory demoB).beginEvent.
     (AllAlive ((runHistory demoB).beginEvent.withHints [3] []) →
       AllAlive (processCommand {} 1 [strBytes "EXEC"] ((runHistory demoB).beginEvent.withHints [3] [])).2) :=
   processCommand_never_crashes {} 1 [strBytes "EXEC"] ((runHistory demoB).beginEvent.withHints [3] [])
-    (txWf_reachable demoB) rfl demoB_not_script
+    (txWf_reachable demoB) rfl
 
 example : TxWf (processCommand {} 1 [strBytes "EXEC"] ((runHistory demoB).beginEvent.withHints [3] [])).2 :=
   (processCommand_keeps {} 1 [strBytes "EXEC"] ((runHistory demoB).beginEvent.withHints [3] [])
     (txWf_reachable demoB)).1
 
-/-- both alternatives of `processCommand_crash_only_exec_of_script` occur: `demoB` (first), and the EVAL history of
-`unconditional_no_crash_false` below (second: `ExecOfScript` holds there) -/
-example : ExecOfScript ((runHistory [.open 1, .request {} 1 [strBytes "MULTI"] [1] [],
-      .request {} 1 [strBytes "EVAL", strBytes "return 1", strBytes "0"] [2] []]).beginEvent.withHints [3] [])
-    1 [strBytes "EXEC"] :=
-  ⟨strBytes "EXEC", [], sigOf' "exec", [("eval", [strBytes "return 1", strBytes "0"])], rfl, by decide +kernel,
-    by decide +kernel, by decide +kernel, ("eval", _), List.mem_singleton.2 rfl, by decide⟩
+/-- `MULTI; EVAL "return 1" 0` - the history whose EXEC used to be the witness `unconditional_no_crash_false` -/
+def demoE : List Ev :=
+  [.open 1, .request {} 1 [strBytes "MULTI"] [1] [],
+   .request {} 1 [strBytes "EVAL", strBytes "return 1", strBytes "0"] [2] []]
 
-/-- **The unconditional statement is false in the model** — and only there.  `MULTI; EVAL "return 1" 0; EXEC`: the
-state before EXEC is reachable, `TxClean`, `crashed = none`, yet EXEC ends with `crashed = some "AssertionError"`.
-The model does not implement script commands inside MULTI: `special` answers them with `NoResponse` and sets
-`fault := "model: command not modelled: eval"`, so the run is one the model declares it cannot follow (fakeredis
-itself runs the script).  Hence the hypothesis `¬ ExecOfScript` / `fault = none` above cannot be dropped. -/
-theorem unconditional_no_crash_false :
-    ¬ ∀ (s : Sys) (mode : Mode) (c : Nat) (fields : List Bytes), TxClean s → s.crashed = none →
-        (processCommand mode c fields s).2.crashed = none := by
-  intro h
-  have := h ((runHistory [.open 1, .request {} 1 [strBytes "MULTI"] [1] [],
-      .request {} 1 [strBytes "EVAL", strBytes "return 1", strBytes "0"] [2] []]).beginEvent.withHints [3] [])
-    {} 1 [strBytes "EXEC"] (txClean_reachable _) rfl
-  revert this
-  decide +kernel
+theorem demoE_queue : (((runHistory demoE).beginEvent.withHints [3] []).conn 1).tx =
+    some [("eval", [strBytes "return 1", strBytes "0"])] := by decide +kernel
 
-/-- … and on that run the `fault` marker is indeed set (the model's "command not modelled") -/
+/-- **The unconditional statement holds** (replaces `unconditional_no_crash_false`, the kernel-checked witness that
+`MULTI; EVAL "return 1" 0; EXEC` ended with `crashed = some "AssertionError"` while the model did not run queued
+script commands): from a state with well-formed queues no request at all crashes. -/
+theorem unconditional_no_crash :
+    ∀ (s : Sys) (mode : Mode) (c : Nat) (fields : List Bytes), TxWf s → s.crashed = none →
+        (processCommand mode c fields s).2.crashed = none :=
+  fun s mode c fields h hcr => (processCommand_never_crashes mode c fields s h hcr).1
+
+/-- … in particular the EXEC of the former witness, whatever hints the host supplies (`pk`): `crashed = none` -/
+theorem former_witness_no_crash (cl : List Int) (pk : List (List Bytes)) :
+    (stepEv (runHistory demoE) (.request {} 1 [strBytes "EXEC"] cl pk)).crashed = none :=
+  exec_never_asserts demoE {} 1 _ cl pk
+
+/-- … with the hints of a run of the script (SHA-1, the Lua error it ended in) the model follows it: no `fault`, and
+the reply is the one-element array holding the script's error; without hints the replay cannot follow the script and
+says so (`fault`) - which is not a crash -/
 example :
-    (stepEv (runHistory [.open 1, .request {} 1 [strBytes "MULTI"] [1] [],
-      .request {} 1 [strBytes "EVAL", strBytes "return 1", strBytes "0"] [2] []])
-      (.request {} 1 [strBytes "EXEC"] [3] [])).fault = some "model: command not modelled: eval" := by decide +kernel
+    (stepEv (runHistory demoE) (.request {} 1 [strBytes "EXEC"] [3] FR.Props.C04s.evalHints)).fault = none ∧
+    (stepEv (runHistory demoE) (.request {} 1 [strBytes "EXEC"] [3] FR.Props.C04s.evalHints)).crashed = none ∧
+    (stepEv (runHistory demoE) (.request {} 1 [strBytes "EXEC"] [3] FR.Props.C04s.evalHints)).out.map
+        (fun p => (p.1, p.2.render)) =
+      [(1, (Reply.arr [.err (strBytes (scriptErrorMsg (strBytes "e0e1f9fabfc9d4800c877a703b823ac0578ff8db") "boom"))]).render)] ∧
+    (stepEv (runHistory demoE) (.request {} 1 [strBytes "EXEC"] [3] [])).fault = some "eval: sha hint missing" ∧
+    (stepEv (runHistory demoE) (.request {} 1 [strBytes "EXEC"] [3] [])).crashed = none := by decide +kernel
 
 /-! ### events and histories -/
 
 /-- **One event from a healthy state** (queues well-formed, no dead connection) that is not a write during an
-outage: the queues stay well-formed, and unless the model has flagged the run, `crashed = none` afterwards and no
-connection is dead.  For `.send` this covers the outage check, the parser loop over arbitrary bytes and every
+outage: the queues stay well-formed, `crashed = none` afterwards and no connection is dead - whether or not the model
+has flagged the run (`fault`).  For `.send` this covers the outage check, the parser loop over arbitrary bytes and every
 complete request in them; for the asyncio events the resumed parser loop as well. -/
-theorem event_never_crashes (s : Sys) (e : Ev) (h : TxWf s) (ha : AllAlive s) (hup : e.up s)
-    (hff : (stepEv s e).fault = none) :
+theorem event_never_crashes (s : Sys) (e : Ev) (h : TxWf s) (ha : AllAlive s) (hup : e.up s) :
     (stepEv s e).crashed = none ∧ AllAlive (stepEv s e) ∧ TxWf (stepEv s e) := by
   have hk := stepEv_K s e h ha hup
-  obtain ⟨h1, h2⟩ := hk.healthy hff
+  obtain ⟨h1, h2⟩ := hk.healthy
   exact ⟨h1, h2, hk.1⟩
 
 /-- the `.send` event, spelled out: server connected, connection `c` (like every other) not dead -/
 theorem send_never_crashes (s : Sys) (mode : Mode) (c : Nat) (data : Bytes) (cl : List Int) (pk : List (List Bytes))
-    (h : TxWf s) (ha : AllAlive s) (hup : s.srv.connected = true)
-    (hff : (stepEv s (.send mode c data cl pk)).fault = none) :
+    (h : TxWf s) (ha : AllAlive s) (hup : s.srv.connected = true) :
     (stepEv s (.send mode c data cl pk)).crashed = none ∧
     ((stepEv s (.send mode c data cl pk)).conn c).dead = false ∧ AllAlive (stepEv s (.send mode c data cl pk)) := by
-  obtain ⟨h1, h2, _⟩ := event_never_crashes s (.send mode c data cl pk) h ha hup hff
+  obtain ⟨h1, h2, _⟩ := event_never_crashes s (.send mode c data cl pk) h ha hup
   exact ⟨h1, h2.conn c, h2⟩
 
 /-- a write while the server is marked disconnected raises the client library's `ConnectionError` — by design — and
@@ -222,17 +202,24 @@ theorem outage_send (s : Sys) (mode : Mode) (c : Nat) (data : Bytes) (cl : List 
   show (sendallGuarded mode c data (s.beginEvent.withHints cl pk)).2 = _
   rw [sendallGuarded_run_down mode c data (s.beginEvent.withHints cl pk) hdown]
 
-/-- **Over histories.**  For every history without a write during an outage that the model follows (`GoodFrom`): in
-the state it reaches no connection is dead, the queues are well-formed, and (if the history is not empty) the last
-event left `crashed = none` and `fault = none`. -/
-theorem reachable_alive (evs : List Ev) (hg : GoodFrom {} evs) :
+/-- **Over histories.**  For every history without a write during an outage (`UpFrom`; the model need not follow it:
+`fault` may be set on the way): in the state it reaches no connection is dead, the queues are well-formed, and (if the
+history is not empty) the last event left `crashed = none`. -/
+theorem reachable_alive (evs : List Ev) (hg : UpFrom {} evs) :
+    AllAlive (runHistory evs) ∧ TxWf (runHistory evs) ∧ (evs ≠ [] → (runHistory evs).crashed = none) := by
+  have := foldl_alive_up evs {} txWf_init (fun x hx => by cases hx) hg
+  exact ⟨this.1, txWf_reachable evs, this.2⟩
+
+/-- the other conjunct of the former `reachable_alive`: a history the model follows (`GoodFrom`) ends with
+`fault = none` (by the definition of `GoodFrom`) - and with everything `reachable_alive` says -/
+theorem reachable_alive_followed (evs : List Ev) (hg : GoodFrom {} evs) :
     AllAlive (runHistory evs) ∧ TxWf (runHistory evs) ∧
     (evs ≠ [] → (runHistory evs).crashed = none ∧ (runHistory evs).fault = none) := by
   have := foldl_alive evs {} txWf_init (fun x hx => by cases hx) hg
   exact ⟨this.1, txWf_reachable evs, this.2⟩
 
 /-- … and every connection read off such a state is usable: `dead = false` -/
-theorem reachable_conn_alive (evs : List Ev) (hg : GoodFrom {} evs) (c : Nat) : ((runHistory evs).conn c).dead = false :=
+theorem reachable_conn_alive (evs : List Ev) (hg : UpFrom {} evs) (c : Nat) : ((runHistory evs).conn c).dead = false :=
   (reachable_alive evs hg).1.conn c
 
 /-- non-vacuity of `event_never_crashes` / `send_never_crashes`: the former KF-1 stream written to a fresh connection -/
@@ -240,17 +227,18 @@ example : (stepEv (runHistory [.open 1]) (.send {} 1 FR.Props.C04s.multiSubExec 
     ((stepEv (runHistory [.open 1]) (.send {} 1 FR.Props.C04s.multiSubExec [1, 2, 3] [])).conn 1).dead = false ∧
     AllAlive (stepEv (runHistory [.open 1]) (.send {} 1 FR.Props.C04s.multiSubExec [1, 2, 3] [])) :=
   send_never_crashes (runHistory [.open 1]) {} 1 _ [1, 2, 3] [] (txWf_reachable _)
-    (reachable_alive [.open 1] (by decide +kernel)).1 (by decide +kernel) (by decide +kernel)
+    (reachable_alive [.open 1] (by decide +kernel)).1 (by decide +kernel)
 
 example : (stepEv (runHistory [.open 1]) (.request {} 1 [strBytes "PING"] [1] [])).crashed = none :=
   (event_never_crashes (runHistory [.open 1]) (.request {} 1 [strBytes "PING"] [1] []) (txWf_reachable _)
-    (reachable_alive [.open 1] (by decide +kernel)).1 trivial (by decide +kernel)).1
+    (reachable_alive [.open 1] (by decide +kernel)).1 trivial).1
 
 /-- non-vacuity: the former KF-1 history, sent over the wire, followed by a PING -/
 def demoC : List Ev :=
   [.open 1, .send {} 1 FR.Props.C04s.multiSubExec [1, 2, 3] [], .send {} 1 FR.Props.C04s.ping [4] []]
 
 example : GoodFrom {} demoC := by decide +kernel
+example : UpFrom {} demoC := by decide +kernel
 
 example : ((runHistory demoC).conn 1).dead = false := reachable_conn_alive demoC (by decide +kernel) 1
 
@@ -356,22 +344,18 @@ theorem reply_count_unsubscribe (mode : Mode) (c : Nat) (nameB : Bytes) (args : 
   exact ⟨acks, by rw [finish_out, h1, PubSubHist.prep_out], h2, h3⟩
 
 /-- **every other command, run at once** (outside MULTI, or EXEC / DISCARD / MULTI / WATCH inside): regular commands,
-the special ones, scripts, EXEC — not (P)SUBSCRIBE / (P)UNSUBSCRIBE, not a blocking pop — from a state with
-well-formed queues and `crashed = none`, unless it is an EXEC of a queue with a script command: **exactly one reply**
-to `c`, on top of the pub/sub messages delivered meanwhile -/
+the special ones, scripts, EXEC (of any well-formed queue, script commands included) — not (P)SUBSCRIBE /
+(P)UNSUBSCRIBE, not a blocking pop — from a state with well-formed queues: **exactly one reply** to `c`, on top of the
+pub/sub messages delivered meanwhile -/
 theorem reply_count_run (mode : Mode) (c : Nat) (nameB : Bytes) (args : List Bytes) (s : Sys) (hwf : TxWf s)
-    (hcr : s.crashed = none) (hcl : (s.conn c).closed = false) {sig : Sig} (hl : lookupSig nameB = some sig)
+    (hcl : (s.conn c).closed = false) {sig : Sig} (hl : lookupSig nameB = some sig)
     (ha : sig.checkArity args.length = true)
     (hq : ((s.conn c).tx.isSome && !SigTable.notQueued.contains sig.name) = false)
-    (hsub : sig.name ∉ SigTable.notInMulti) (hb : sig.name ∉ blockingNames)
-    (hns : ¬ ExecOfScript s c (nameB :: args)) :
+    (hsub : sig.name ∉ SigTable.notInMulti) (hb : sig.name ∉ blockingNames) :
     ∃ r D, (processCommand mode c (nameB :: args) s).2.out = (c, r) :: D ++ s.out ∧ ∀ p ∈ D, IsMsg p.2 := by
   rcases processCommand_reply mode c nameB args s hwf hcl hl ha hq hsub with h | ⟨h, _⟩
   · exact h
-  · exfalso
-    rcases h with h | ⟨_, h⟩
-    · exact hb h
-    · rw [(processCommand_never_crashes mode c _ s hwf hcr hns).1] at h; cases h
+  · exact absurd h hb
 
 /-- a blocking pop (BLPOP / BRPOP / BRPOPLPUSH, either front-end, parking or not), run at once: **at most one** reply —
 one when it is served or gives up at once, none when it parks (the later wake-up / time-out event answers).
@@ -438,13 +422,8 @@ example : ∃ acks : List (Nat × Reply),
 theorem look_ping : lookupSig (strBytes "PING") = some (sigOf "ping") := by decide +kernel
 
 example : ∃ r D, (processCommand {} 1 [strBytes "PING"] sIdle).2.out = (1, r) :: D ++ sIdle.out ∧ ∀ p ∈ D, IsMsg p.2 := by
-  refine reply_count_run {} 1 _ _ sIdle sIdle_wf rfl (by decide +kernel) look_ping (by decide +kernel)
-    (by decide +kernel) (by decide +kernel) (by decide +kernel) ?_
-  rintro ⟨nb, as, sg, q, hf, hl, hex, _⟩
-  cases hf
-  rw [look_ping] at hl
-  cases hl
-  revert hex; decide +kernel
+  exact reply_count_run {} 1 _ _ sIdle sIdle_wf (by decide +kernel) look_ping (by decide +kernel)
+    (by decide +kernel) (by decide +kernel) (by decide +kernel)
 
 example : ∃ D, (∀ p ∈ D, IsMsg p.2) ∧
     ((processCommand {} 1 [strBytes "BLPOP", [107], [48]] sIdle).2.out = D ++ sIdle.out ∨
@@ -630,50 +609,48 @@ example : Conn.normal ((processCommand {} 1 [strBytes "EXEC"]
 
 `C04s.sendall_append`, `sendChunks_flatten`, `all_chunkings_agree` need "the connection is alive after the first chunk /
 after each chunk / after the one-shot write".  From a healthy state — in particular from every state reached by a
-history the model follows (`GoodFrom`) — that follows from the run itself being one the model follows (`fault = none`
-after the write): the only way a connection dies is the assertion path of EXEC, which sets `fault`. -/
+history without a write during an outage (`UpFrom`) — that always holds: no request kills a connection, EXEC of a
+queue with script commands included (before the model ran queued scripts the theorems below needed `fault = none`
+after the write). -/
 
 /-- the state at the start of a `.send` event in a reachable healthy state satisfies the event invariant -/
-theorem K_of_reachable (evs : List Ev) (hg : GoodFrom {} evs) (cl : List Int) (pk : List (List Bytes)) :
+theorem K_of_reachable (evs : List Ev) (hg : UpFrom {} evs) (cl : List Int) (pk : List (List Bytes)) :
     K ((runHistory evs).beginEvent.withHints cl pk) :=
-  ⟨txWf_reachable evs, .inr ⟨rfl, (reachable_alive evs hg).1⟩⟩
+  ⟨txWf_reachable evs, rfl, (reachable_alive evs hg).1⟩
 
-/-- after a write that the model follows, from a state satisfying the event invariant, the connection is alive -/
-theorem alive_after_sendall (mode : Mode) (c : Nat) (data : Bytes) (s : Sys) (hk : K s)
-    (hff : ((sendall mode c data).run s).2.fault = none) : (connOf ((sendall mode c data).run s).2 c).dead = false :=
-  ((sendall_K mode c data s hk).healthy hff).2.conn c
+/-- after a write, from a state satisfying the event invariant, the connection is alive -/
+theorem alive_after_sendall (mode : Mode) (c : Nat) (data : Bytes) (s : Sys) (hk : K s) :
+    (connOf ((sendall mode c data).run s).2 c).dead = false :=
+  (sendall_K mode c data s hk).healthy.2.conn c
 
 /-- **`sendall a; sendall b = sendall (a ++ b)`** for any split of any byte stream, from any state satisfying the
-event invariant, when the first write is one the model follows — no aliveness hypothesis -/
-theorem sendall_append (mode : Mode) (c : Nat) (a b : Bytes) (s : Sys) (hk : K s)
-    (hff : ((sendall mode c a).run s).2.fault = none) :
+event invariant — no aliveness hypothesis, no hypothesis on the `fault` marker -/
+theorem sendall_append (mode : Mode) (c : Nat) (a b : Bytes) (s : Sys) (hk : K s) :
     (do sendall mode c a; sendall mode c b : M Unit).run s = (sendall mode c (a ++ b)).run s :=
-  FR.Props.C04s.sendall_append mode c a b s (alive_after_sendall mode c a s hk hff)
+  FR.Props.C04s.sendall_append mode c a b s (alive_after_sendall mode c a s hk)
 
-/-- **All chunkings agree**: for a stream whose one-shot processing the model follows, every chunking `cs` of it does
-exactly what the one-shot write does — same replies in the same order, same final state -/
+/-- **All chunkings agree**: every chunking `cs` of a stream does exactly what the one-shot write does — same replies
+in the same order, same final state -/
 theorem all_chunkings_agree (mode : Mode) (c : Nat) (stream : Bytes) (s : Sys) (hk : K s)
-    (hff : ((sendall mode c stream).run s).2.fault = none)
     (cs : List Bytes) (hne : cs ≠ []) (hflat : cs.flatten = stream) :
     (sendChunks mode c cs).run s = (sendall mode c stream).run s :=
-  FR.Props.C04s.all_chunkings_agree mode c stream s (alive_after_sendall mode c stream s hk hff) cs hne hflat
+  FR.Props.C04s.all_chunkings_agree mode c stream s (alive_after_sendall mode c stream s hk) cs hne hflat
 
 /-- … and two chunkings of the same stream end in the same state, with the same replies -/
 theorem chunking_irrelevant (mode : Mode) (c : Nat) (cs cs' : List Bytes) (hne : cs ≠ []) (hne' : cs' ≠ [])
-    (hflat : cs.flatten = cs'.flatten) (s : Sys) (hk : K s)
-    (hff : ((sendall mode c cs.flatten).run s).2.fault = none) :
+    (hflat : cs.flatten = cs'.flatten) (s : Sys) (hk : K s) :
     (sendChunks mode c cs).run s = (sendChunks mode c cs').run s := by
-  rw [all_chunkings_agree mode c cs.flatten s hk hff cs hne rfl,
-    all_chunkings_agree mode c cs.flatten s hk hff cs' hne' hflat.symm]
+  rw [all_chunkings_agree mode c cs.flatten s hk cs hne rfl,
+    all_chunkings_agree mode c cs.flatten s hk cs' hne' hflat.symm]
 
-/-- the same from reachable states: after any history the model follows, at the start of a `.send` event -/
-theorem all_chunkings_agree_reachable (evs : List Ev) (hg : GoodFrom {} evs) (mode : Mode) (c : Nat) (stream : Bytes)
+/-- the same from reachable states: after any history without a write during an outage, at the start of a `.send`
+event -/
+theorem all_chunkings_agree_reachable (evs : List Ev) (hg : UpFrom {} evs) (mode : Mode) (c : Nat) (stream : Bytes)
     (cl : List Int) (pk : List (List Bytes))
-    (hff : ((sendall mode c stream).run ((runHistory evs).beginEvent.withHints cl pk)).2.fault = none)
     (cs : List Bytes) (hne : cs ≠ []) (hflat : cs.flatten = stream) :
     (sendChunks mode c cs).run ((runHistory evs).beginEvent.withHints cl pk) =
       (sendall mode c stream).run ((runHistory evs).beginEvent.withHints cl pk) :=
-  all_chunkings_agree mode c stream _ (K_of_reachable evs hg cl pk) hff cs hne hflat
+  all_chunkings_agree mode c stream _ (K_of_reachable evs hg cl pk) cs hne hflat
 
 /-- non-vacuity: the former KF-1 stream `MULTI / SUBSCRIBE x / EXEC / PING`, byte by byte (69 chunks), from the state
 after a connection was opened — before the fix the byte-wise delivery and the one-shot write differed -/
@@ -682,7 +659,7 @@ example :
         ((runHistory [.open 1]).beginEvent.withHints [1, 2, 3, 4] []) =
       (sendall {} 1 (FR.Props.C04s.multiSubExec ++ FR.Props.C04s.ping)).run
         ((runHistory [.open 1]).beginEvent.withHints [1, 2, 3, 4] []) :=
-  all_chunkings_agree_reachable [.open 1] (by decide +kernel) {} 1 _ [1, 2, 3, 4] [] (by decide +kernel) _
+  all_chunkings_agree_reachable [.open 1] (by decide +kernel) {} 1 _ [1, 2, 3, 4] [] _
     (by decide) (by decide +kernel)
 
 example : ((sendall {} 1 (FR.Props.C04s.multiSubExec ++ FR.Props.C04s.ping)).run
@@ -694,6 +671,16 @@ example : (do sendall {} 1 FR.Props.C04s.multiSubExec; sendall {} 1 FR.Props.C04
       ((runHistory [.open 1]).beginEvent.withHints [1, 2, 3, 4] []) =
     (sendall {} 1 (FR.Props.C04s.multiSubExec ++ FR.Props.C04s.ping)).run
       ((runHistory [.open 1]).beginEvent.withHints [1, 2, 3, 4] []) :=
-  sendall_append {} 1 _ _ _ (K_of_reachable [.open 1] (by decide +kernel) _ _) (by decide +kernel)
+  sendall_append {} 1 _ _ _ (K_of_reachable [.open 1] (by decide +kernel) _ _)
+
+/-- non-vacuity with a script command in the queue: `MULTI / EVAL "return 1" 0 / EXEC / PING`, byte by byte, whatever
+the hints (here: none, so the replay sets `fault` - and the chunkings still agree) -/
+example :
+    (sendChunks {} 1 ((FR.Props.C04s.multiEvalExec ++ FR.Props.C04s.ping).map fun x => [x])).run
+        ((runHistory [.open 1]).beginEvent.withHints [1, 2, 3, 4] []) =
+      (sendall {} 1 (FR.Props.C04s.multiEvalExec ++ FR.Props.C04s.ping)).run
+        ((runHistory [.open 1]).beginEvent.withHints [1, 2, 3, 4] []) :=
+  all_chunkings_agree_reachable [.open 1] (by decide +kernel) {} 1 _ [1, 2, 3, 4] [] _
+    (by decide) (by decide +kernel)
 
 end FR.Props.C04k
